@@ -377,5 +377,46 @@ func vC07(seed int64, count int, extra []string) {
 			c07Compare("inserting an unrelated definition changes a definition's Go", base, c07Decls(o5[0]), nil, s1, s5)
 		}
 		vstat("variant.insert")
+		// (e) a LONG unrelated history before A: the one parse state has processed many type groups with
+		// forward references, many generic functions and many matches (every per-definition counter /
+		// allocator has been used far more often than any single definition needs)
+		if i < 2 {
+			hist := c07LongHistory(g, i)
+			s6 := head + hist + a + b
+			if o6, e6 := vTranspileFiles([]string{s6}); e6 != "" {
+				vViolation(map[string]any{"kind": "a long history of unrelated definitions makes fc reject a definition that is accepted without it", "error": e6, "program": s6})
+			} else {
+				c07Compare("a long history of unrelated definitions changes a definition's Go", base, c07Decls(o6[0]), func(k string) bool { return ofA(k) || ofB(k) }, s1, s6)
+			}
+			// the same history as a separate earlier file of the invocation
+			files := []string{head, imports + hist, imports + a + b}
+			if o7, e7 := vTranspileFiles(files); e7 != "" {
+				vViolation(map[string]any{"kind": "a long earlier file of unrelated definitions makes fc reject a later file", "error": e7, "files": files})
+			} else {
+				c07Compare("a long earlier file of unrelated definitions changes a definition's Go", base, c07Decls(o7[2]), func(k string) bool { return ofA(k) || ofB(k) }, s1, strings.Join(files, "\n// ---- next file ----\n"))
+			}
+			vstat("variant.long-history")
+		}
 	}
+}
+
+// many unrelated definitions: mutually recursive type groups (3 forward references each), generic
+// functions (3 undetermined parameters each), functions with matches and nested ifs (temporaries)
+func c07LongHistory(g *ggen, i int) string {
+	var sb strings.Builder
+	ng := 40 + g.r.Intn(25)
+	for k := 0; k < ng; k++ {
+		p := fmt.Sprintf("L%d_%d", i, k)
+		sb.WriteString(fmt.Sprintf("type %sA = {b: %sB; c: %sC; d: []%sD}\nand %sB = {x: int}\nand %sC =\n  | %sC0\n  | %sC1 of %sD\nand %sD = {y: string}\n\n", p, p, p, p, p, p, p, p, p, p))
+	}
+	nf := 40 + g.r.Intn(25)
+	for k := 0; k < nf; k++ {
+		sb.WriteString(fmt.Sprintf("let lgen%d_%d a b c =\n  (a, (b, c))\n\n", i, k))
+	}
+	nm := 30 + g.r.Intn(20)
+	for k := 0; k < nm; k++ {
+		p := fmt.Sprintf("L%d_%d", i, k%ng)
+		sb.WriteString(fmt.Sprintf("let lmat%d_%d (v: %sC) (n: int) =\n  let r = match v with\n          | %sC0 -> if n > 1 then n else 0\n          | %sC1 d -> n + 1\n  r + 1\n\n", i, k, p, p, p))
+	}
+	return sb.String()
 }
